@@ -231,6 +231,107 @@ func sameBranch(fi *FuncInfo, a, b ssa.Instruction) bool {
 	return a.Block().Dominates(b.Block()) && len(b.Block().Preds) == 1 && (b.Block().Preds[0] == a.Block())
 }
 
+// The reader decodes the format version recorded in the backup, and every frame
+// byte goes through the writer's one buffered stream.
+func clReaderVersionAndSingleStream(c *Ctx) {
+	p := c.P
+	nfr := p.Func("nitro", "Nitro", "newFileReader")
+	fVer := p.Field("nitro", "rawFileReader", "version")
+	sts := p.storesTo(nfr, fVer)
+	ok := len(sts) == 1 && strip(sts[0].Val) == strip(nfr.Params[2])
+	var at ssa.Instruction
+	if len(sts) > 0 {
+		at = sts[0]
+	}
+	c.Check(ok, nfr, at, "file reader is constructed with the format version it is given", "readers ignore the version recorded in the backup (nitro.json): files of the older format are decoded with the current prefix width and fail or desynchronise")
+	// ReadItem passes the reader's version to DecodeItem
+	ri := p.Func("nitro", "rawFileReader", "ReadItem")
+	dec := p.Func("nitro", "Nitro", "DecodeItem")
+	for _, s := range p.CallSites(ri, dec) {
+		c.Check(loadsField(fVer)(callOf(s).Args[1]), ri, s, "ReadItem decodes with the reader's format version", "")
+	}
+	// LoadFromDisk derives it from the manifest
+	load := p.Func("nitro", "Nitro", "LoadFromDisk")
+	for _, s := range p.CallSites(load, nfr) {
+		v := strip(callOf(s).Args[2])
+		fromManifest := false
+		seen := map[ssa.Value]bool{}
+		var walk func(v ssa.Value)
+		walk = func(v ssa.Value) {
+			v = strip(v)
+			if seen[v] {
+				return
+			}
+			seen[v] = true
+			switch x := v.(type) {
+			case *ssa.Phi:
+				for _, e := range x.Edges {
+					walk(e)
+				}
+			case *ssa.Lookup:
+				fromManifest = true
+			case *ssa.Extract:
+				walk(x.Tuple)
+			case *ssa.UnOp:
+				if al, ok := x.X.(*ssa.Alloc); ok {
+					for _, r := range referrersOf(al) {
+						if st, ok := r.(*ssa.Store); ok && st.Addr == ssa.Value(al) {
+							walk(st.Val)
+						}
+					}
+				}
+				if fv, ok := x.X.(*ssa.FreeVar); ok {
+					if al, ok := closureBinding(fv.Parent(), fv).(*ssa.Alloc); ok {
+						for _, r := range referrersOf(al) {
+							if st, ok := r.(*ssa.Store); ok && st.Addr == ssa.Value(al) {
+								walk(st.Val)
+							}
+						}
+					}
+				}
+			}
+		}
+		walk(v)
+		c.Check(fromManifest, load, s, "restore opens readers with the version read from nitro.json", "the version recorded in the backup is not what the readers decode with")
+	}
+	// writer: one stream
+	wi := p.Func("nitro", "rawFileWriter", "WriteItem")
+	enc := p.Func("nitro", "Nitro", "EncodeItem")
+	fW := p.Field("nitro", "rawFileWriter", "w")
+	fFd := p.Field("nitro", "rawFileWriter", "fd")
+	n := 0
+	for _, s := range p.CallSites(wi, enc) {
+		n++
+		w := callOf(s).Args[3]
+		f, _ := loadedField(strip(w))
+		c.Check(f == fW, wi, s, "every frame is written through the writer's buffered stream", "some frames bypass the buffered stream (e.g. large items written straight to the file): they overtake frames still in the buffer, so the file holds a permutation of the items while the XOR checksum still matches")
+	}
+	c.Check(n >= 1, wi, nil, "WriteItem encodes through EncodeItem", "")
+	// nothing but Open/Close touches the raw file
+	for _, fn := range p.Funcs {
+		if fn.Package().Pkg.Path() != modPath || fn.Signature.Recv() == nil {
+			continue
+		}
+		if !strings.Contains(fname(fn), "rawFileWriter") {
+			continue
+		}
+		for _, in := range p.Own(fn) {
+			cc := callOf(in)
+			if cc == nil {
+				continue
+			}
+			for i, a := range cc.Args {
+				if f, _ := loadedField(strip(a)); f == fFd {
+					name := p.calleeName(in)
+					okUse := strings.Contains(name, "Close") || strings.Contains(name, "NewWriter")
+					_ = i
+					c.Check(okUse, fn, in, "the raw file is used only to create the buffered stream and to be closed", "bytes are written to the shard file outside the buffered stream ("+name+")")
+				}
+			}
+		}
+	}
+}
+
 // C19.b checksum operand agreement.
 func clChecksumOperands(c *Ctx) {
 	p := c.P
